@@ -29,8 +29,10 @@ import (
 
 	"github.com/kardiachain/go-kardia/kai/kaidb/memorydb"
 	"github.com/kardiachain/go-kardia/kai/rawdb"
+	"github.com/kardiachain/go-kardia/kai/state/cstate"
 	"github.com/kardiachain/go-kardia/lib/common"
 	"github.com/kardiachain/go-kardia/lib/crypto"
+	"github.com/kardiachain/go-kardia/lib/log"
 	"github.com/kardiachain/go-kardia/lib/merkle"
 	"github.com/kardiachain/go-kardia/lib/rlp"
 	kproto "github.com/kardiachain/go-kardia/proto/kardiachain/types"
@@ -1227,13 +1229,26 @@ func runBlockCase(o *out.Out, r *gen.Rand, c int) {
 	}
 	o.Count(fmt.Sprintf("block.evidence.%d", len(evs)))
 	hdr := &types.Header{Height: height, Time: base, GasLimit: uint64(r.Intn(3) * r.Intn(50000000)), LastBlockID: lastBID,
-		ProposerAddress: vset.Validators[r.Intn(nv)].Address, ValidatorsHash: rndHash(r), NextValidatorsHash: rndHash(r),
+		ProposerAddress: vset.Validators[r.Intn(nv)].Address, ValidatorsHash: vset.Hash(), NextValidatorsHash: vset.Hash(),
 		ConsensusHash: rndHash(r), AppHash: rndHash(r)}
 	if r.Chance(1, 6) {
 		hdr.AppHash = common.Hash{}
 	}
-	if r.Chance(1, 12) {
-		hdr.Time = time.Time{} // zero time: seconds = -62135596800 (10-byte varint)
+	if height > 1 {
+		hdr.Time = cstate.MedianTime(lastCommit, vset) // what validateBlock demands
+	}
+	// the chain state this block is to be validated against (kai/state/cstate validateBlock)
+	state := cstate.LatestBlockState{ChainID: chainID, InitialHeight: 1, LastBlockHeight: height - 1, LastBlockID: lastBID,
+		LastBlockTime: hdr.Time.Add(-time.Hour), NextValidators: vset, Validators: vset, LastValidators: vset, AppHash: hdr.AppHash,
+		ConsensusParams: *types.DefaultConsensusParams()}
+	if height == 1 {
+		state.LastBlockTime = hdr.Time // genesis time
+	}
+	if r.Chance(1, 10) { // not a block of this chain state: exercises hashing of unusual values only
+		hdr.ValidatorsHash = rndHash(r)
+		if r.Bool() {
+			hdr.Time = time.Time{} // zero time: seconds = -62135596800 (10-byte varint)
+		}
 	}
 	blk := types.NewBlock(hdr, txs, lastCommit, evs, hasher())
 
@@ -1277,23 +1292,27 @@ func runBlockCase(o *out.Out, r *gen.Rand, c int) {
 		o.Fail(1, "block-panic", "Hash/ValidateBasic panicked on a well-formed block")
 		return
 	}
-	stateOK := func(b *types.Block) error { // the commit checks of cstate.validateBlock
-		if b.Height() == 1 {
-			if b.LastCommit() != nil && len(b.LastCommit().Signatures) != 0 {
-				return fmt.Errorf("initial block with commit signatures")
-			}
-			return nil
-		}
-		if b.LastCommit() == nil {
-			return fmt.Errorf("nil commit")
-		}
+	// validation against the chain state: the repository's own BlockExecutor.ValidateBlock.  `node` is the
+	// executor of a running node (one per process, it has validated the genuine block first, as consensus
+	// does on receiving the proposal); `fresh` is a new executor per question.
+	node := cstate.NewBlockExecutor(nil, log.New(), okEvidencePool{}, nil)
+	validate := func(ex *cstate.BlockExecutor, b *types.Block) error {
 		var err error
-		if catch(func() { err = vset.VerifyCommit(chainID, lastBID, b.Height()-1, b.LastCommit()) }) {
-			return fmt.Errorf("panic")
+		if catch(func() { err = ex.ValidateBlock(state, b) }) {
+			return fmt.Errorf("PANIC in ValidateBlock")
 		}
 		return err
 	}
+	stateOK := func(b *types.Block) error { return validate(node, b) }
 	baseState := stateOK(blk)
+	if baseState != nil && strings.HasPrefix(baseState.Error(), "PANIC") {
+		o.Fail(1, "validateblock-panic", "BlockExecutor.ValidateBlock panicked on the generated block")
+	}
+	if baseState == nil {
+		o.Count("block.base.state-valid")
+	} else {
+		o.Count("block.base.state-invalid")
+	}
 	baseCanon := canon(blk)
 	baseValid := baseVB == nil
 	o.Count("block.basevb." + vbClass(baseVB))
@@ -1495,16 +1514,25 @@ func runBlockCase(o *out.Out, r *gen.Rand, c int) {
 			continue
 		}
 		mstate := stateOK(mb)
+		mfresh := validate(cstate.NewBlockExecutor(nil, log.New(), okEvidencePool{}, nil), mb)
+		if (mstate != nil && strings.HasPrefix(mstate.Error(), "PANIC")) || (mfresh != nil && strings.HasPrefix(mfresh.Error(), "PANIC")) {
+			o.Fail(step, "validateblock-panic:"+m.name, fmt.Sprintf("BlockExecutor.ValidateBlock panicked on the block mutated by %s", m.name))
+		}
 		outcome := "hash-changed"
 		if mh == baseHash {
 			outcome = "same-hash:" + vbClass(mvb)
 			if mvb == nil {
 				if mstate != nil {
 					outcome = "same-hash:state-rejects"
+				} else if mfresh != nil {
+					outcome = "CACHED-VALID"
 				} else {
 					outcome = "UNDETECTED"
 				}
 			}
+		}
+		if outcome == "CACHED-VALID" && baseValid && baseState == nil {
+			o.Fail(step, "validity-cache-ignores-body", fmt.Sprintf("mutation %s of a valid block (height %d) keeps Block.Hash; a fresh BlockExecutor rejects it (%v) but the executor that validated the genuine block before answers valid (cache keyed by the header hash)", m.name, height, mfresh))
 		}
 		o.Count("mutation." + m.name + "." + outcome)
 		o.Mark("mut:" + m.name + ":" + outcome + ":" + commitKind)
@@ -1512,7 +1540,7 @@ func runBlockCase(o *out.Out, r *gen.Rand, c int) {
 			class := "tamper-undetected:" + m.name
 			if height == 1 && strings.HasPrefix(m.name, "commit.") {
 				// the (signature-less) last commit of the initial block
-				class = "genesis-commit-malleable:" + m.name
+				class = "genesis-commit-malleable"
 			}
 			o.Fail(step, class, fmt.Sprintf("mutation %s of a valid block (height %d, %s last commit) keeps Block.Hash %s, passes ValidateBasic and the commit check against the state", m.name, height, commitKind, baseHash.Hex()))
 		} else if outcome == "UNDETECTED" {
@@ -1520,6 +1548,11 @@ func runBlockCase(o *out.Out, r *gen.Rand, c int) {
 		}
 	}
 }
+
+type okEvidencePool struct{}
+
+func (okEvidencePool) Update(cstate.LatestBlockState, types.EvidenceList) {}
+func (okEvidencePool) CheckEvidence(types.EvidenceList) error              { return nil }
 
 func min(a, b int) int {
 	if a < b {
